@@ -219,6 +219,127 @@ Proof.
 Qed.
 End Refine.
 
+(* ------------------------------------------------------------------ undirected input: orientation by role *)
+
+Lemma find_app_none {A} (p : A -> bool) l1 l2 : (forall x, In x l1 -> p x = false) -> find p (l1 ++ l2) = find p l2.
+Proof.
+  induction l1 as [|a l1 IH]; intros H; simpl; [reflexivity|]. rewrite (H a (or_introl eq_refl)). apply IH.
+  intros x I. apply H. right. exact I.
+Qed.
+Lemma find_map_some {A B} (p : B -> bool) (g : A -> B) l rest x : In x l -> p (g x) = true ->
+  exists x', In x' l /\ p (g x') = true /\ find p (map g l ++ rest) = Some (g x').
+Proof.
+  induction l as [|a l IH]; intros I Hp; [destruct I|]. simpl. destruct (p (g a)) eqn:E.
+  - exists a. split; [left; reflexivity|]. split; [exact E|reflexivity].
+  - destruct I as [->|I]; [congruence|]. destruct (IH I Hp) as (x' & I' & Hp' & F). exists x'. split; [right; exact I'|]. split; assumption.
+Qed.
+
+(** an undirected edge is a re-orientation of a directed arc: same attributes, same two ends *)
+Definition reor (e x : rarc) : Prop :=
+  ra_role e = ra_role x /\ ra_stoich e = ra_stoich x /\
+  ((ra_u e = ra_u x /\ ra_v e = ra_v x) \/ (ra_u e = ra_v x /\ ra_v e = ra_u x)).
+
+Section Orient.
+Variables (ids idr : str -> N) (net : list rxn) (iso : list str).
+Hypothesis ids_inj : forall s s', In s (species_set net iso) -> In s' (species_set net iso) -> ids s = ids s' -> s = s'.
+Hypothesis idr_inj : forall e e', In e net -> In e' net -> idr (rid e) = idr (rid e') -> rid e = rid e'.
+Hypothesis disjoint : forall s e, In s (species_set net iso) -> In e net -> ids s <> idr (rid e).
+(** the sides are dicts: no two incidences with the same species, reaction and role *)
+Hypothesis keys_nodup : NoDup (map (fun a => (a_species a, a_rxn a, a_role a)) (bip_arcs net)).
+
+Let G := raw_export ids idr net iso.
+Let ns := rg_nodes G.
+Notation gsn := (gsn ids).
+Notation grn := (grn idr).
+Notation gan := (gan ids idr).
+
+Lemma ns_eq : ns = map gsn (species_set net iso) ++ map grn (edges_sorted net).
+Proof. reflexivity. Qed.
+
+Lemma is_rxn_species s : In s (species_set net iso) -> u_is_rxn ns (ids s) = false.
+Proof.
+  intros I. unfold u_is_rxn, node_of. rewrite ns_eq.
+  destruct (find_map_some (fun n => N.eqb (rn_id n) (ids s)) gsn (species_set net iso) (map grn (edges_sorted net)) s I (N.eqb_refl _))
+    as (s' & _ & _ & ->). reflexivity.
+Qed.
+Lemma is_rxn_reaction e : In e net -> u_is_rxn ns (idr (rid e)) = true.
+Proof.
+  intros I. unfold u_is_rxn, node_of. rewrite ns_eq. rewrite find_app_none.
+  - rewrite <- (app_nil_r (map grn (edges_sorted net))).
+    destruct (find_map_some (fun n => N.eqb (rn_id n) (idr (rid e))) grn (edges_sorted net) [] e
+                (proj2 (in_edges_sorted net e) I) (N.eqb_refl _)) as (e' & _ & _ & ->). reflexivity.
+  - intros x Ix. apply in_map_iff in Ix. destruct Ix as (s & <- & Is). simpl. apply N.eqb_neq. apply disjoint; assumption.
+Qed.
+
+Definition okA (a : arc) : Prop := In (a_species a) (species_set net iso) /\ exists e, In e net /\ a_rxn a = rid e.
+Lemma okA_bip a : In a (bip_arcs net) -> okA a.
+Proof.
+  intros I. destruct (proj1 (Forall_forall _ _) (C17_Nodes.arcs_ok idr net iso idr_inj) a I) as (Is & e & Ie & Er).
+  split; [apply sp_in; exact Is|]. exists e. split; [apply rx_in; exact Ie|exact Er].
+Qed.
+
+Lemma orient_pair_export a e : okA a -> reor e (gan a) -> orient_pair ns e = (ra_u (gan a), ra_v (gan a)).
+Proof.
+  intros (Is & e' & Ie' & Er) (Hr & _ & Hor). unfold orient_pair. rewrite Hr.
+  pose proof (is_rxn_species _ Is) as Hs. pose proof (is_rxn_reaction _ Ie') as Hx. rewrite <- Er in Hx.
+  unfold C19_NodesProof.gan in *. destruct (a_role a); simpl in *; destruct Hor as [[-> ->]|[-> ->]]; rewrite ?Hs, ?Hx; reflexivity.
+Qed.
+
+Lemma gan_pair_inj a a' : okA a -> okA a' ->
+  ra_u (gan a) = ra_u (gan a') -> ra_v (gan a) = ra_v (gan a') ->
+  (a_species a, a_rxn a, a_role a) = (a_species a', a_rxn a', a_role a').
+Proof.
+  intros (Is & e & Ie & Er) (Is' & e' & Ie' & Er'). unfold C19_NodesProof.gan.
+  destruct (a_role a), (a_role a'); simpl; intros H1 H2.
+  - rewrite (ids_inj _ _ Is Is' H1). rewrite Er, Er' in *. rewrite (idr_inj _ _ Ie Ie' H2). reflexivity.
+  - exfalso. rewrite Er' in H1. exact (disjoint _ _ Is Ie' H1).
+  - exfalso. rewrite Er in H1. exact (disjoint _ _ Is' Ie (eq_sym H1)).
+  - rewrite (ids_inj _ _ Is Is' H2). rewrite Er, Er' in *. rewrite (idr_inj _ _ Ie Ie' H1). reflexivity.
+Qed.
+
+Lemma rarc_eta x : RArc (ra_u x) (ra_v x) (ra_role x) (ra_stoich x) = x.
+Proof. destruct x; reflexivity. Qed.
+
+Lemma orient_fold L : Forall okA L -> NoDup (map (fun a => (a_species a, a_rxn a, a_role a)) L) ->
+  forall E D0, Forall2 reor E (map gan L) ->
+  (forall x a, In x D0 -> In a L -> ~ (ra_u x = ra_u (gan a) /\ ra_v x = ra_v (gan a))) ->
+  fold_left (orient_step ns) E D0 = D0 ++ map gan L.
+Proof.
+  induction L as [|a L IH]; intros Hok Hnd E D0 HE Hfree.
+  - inversion HE; subst. simpl. rewrite app_nil_r. reflexivity.
+  - simpl in HE. inversion HE as [|e ? E' ? He HE']; subst. simpl.
+    inversion Hok as [|? ? Hoka Hok']; subst. simpl in Hnd. inversion Hnd as [|? ? Hnotin Hnd']; subst.
+    assert (Hstep : orient_step ns D0 e = D0 ++ [gan a]).
+    { unfold orient_step. rewrite (orient_pair_export a e Hoka He). simpl fst. simpl snd.
+      assert (X : existsb (same_arc (ra_u (gan a)) (ra_v (gan a))) D0 = false).
+      { apply not_true_is_false. intros X. apply existsb_exists in X. destruct X as (x & Ix & Hx).
+        unfold same_arc in Hx. apply andb_true_iff in Hx. destruct Hx as [H1 H2]. apply N.eqb_eq in H1, H2.
+        apply (Hfree x a Ix (or_introl eq_refl)). split; assumption. }
+      rewrite X. destruct He as (Hr & Hst & _). rewrite Hr, Hst, rarc_eta. reflexivity. }
+    rewrite Hstep. rewrite (IH Hok' Hnd' E' (D0 ++ [gan a]) HE').
+    + rewrite <- app_assoc. reflexivity.
+    + intros x a' Ix Ia' [H1 H2]. apply in_app_iff in Ix. destruct Ix as [Ix|[<-|[]]].
+      * apply (Hfree x a' Ix (or_intror Ia')). split; assumption.
+      * apply Hnotin. rewrite (gan_pair_inj a a' Hoka (proj1 (Forall_forall _ _) Hok' a' Ia') H1 H2).
+        apply (in_map (fun a => (a_species a, a_rxn a, a_role a))). exact Ia'.
+Qed.
+
+(** an undirected (multi)graph with the nodes and incidences of the export, each incidence listed in either orientation, is
+    turned by _as_bipartite into exactly the directed export, hence gives the label-level complex graph *)
+Theorem undirected_refine E : Forall2 reor E (rg_arcs G) -> net <> [] -> species_set net iso <> [] ->
+  as_bipartite_undirected (RG ns E) = G /\
+  complex_graph_nodes (as_bipartite_undirected (RG ns E)) = Some (complex_graph net iso).
+Proof.
+  intros HE NE SE.
+  assert (EQ : as_bipartite_undirected (RG ns E) = G).
+  { unfold as_bipartite_undirected, orient. simpl rg_nodes. simpl rg_arcs.
+    rewrite (orient_fold (bip_arcs net)); [reflexivity| | |exact HE|intros x a []].
+    - apply Forall_forall. exact okA_bip.
+    - exact keys_nodup. }
+  split; [exact EQ|]. rewrite EQ. apply nodes_refine; assumption.
+Qed.
+End Orient.
+
 (* non-vacuity: A + B <-> C, C -> 2A with species identifiers 11, 2, 10 and reaction identifiers 7, 3, 5 *)
 Definition exn_G : rgraph :=
   raw_export (look (species_set C19_Complexes.ex_net []) [11%N; 2%N; 10%N])
@@ -238,3 +359,12 @@ Example ex_raw_attributes :
   map eff_label (species_sorted exn_raw) = [[49%N]; [66%N]; [67%N]] /\ map rn_id (reaction_nodes exn_raw) = [4%N] /\
   complex_graph_nodes exn_raw = Some ([[1; 0; 0]; [0; 2; 0]]%Z, [(0, 1)]).
 Proof. repeat split; vm_compute; reflexivity. Qed.
+
+(* the same export handed over as an undirected graph with some edges listed reaction-first *)
+Definition exn_U : list rarc :=
+  map (fun x => if N.eqb (ra_v x) 7 then RArc (ra_v x) (ra_u x) (ra_role x) (ra_stoich x) else x) (rg_arcs exn_G).
+Example ex_undirected : as_bipartite_undirected (RG (rg_nodes exn_G) exn_U) = exn_G /\ exn_U <> rg_arcs exn_G /\
+  orient [RNode 1 (Some 0) None None []; RNode 2 (Some 1) None None []]
+         [RArc 2 1 (Some Reactant) None; RArc 1 2 (Some Reactant) (Some 2%Z); RArc 1 2 (Some Product) (Some 3%Z)]
+  = [RArc 1 2 (Some Reactant) (Some 3%Z); RArc 2 1 (Some Product) (Some 3%Z)].
+Proof. split; [vm_compute; reflexivity|]. split; [vm_compute; discriminate|vm_compute; reflexivity]. Qed.
